@@ -34,8 +34,14 @@ TRUSTED_BASE = [
     "frozen code tables (c19_tables.py); both are compared on every generated case",
     "tools/translate/gen_c19.py (ast -> Lean) for the MODE/WHITE/BLACK/UNCOMPRESSED tables; the tries built from the "
     "translated tables are compared with the tries BitParser.add built in the running interpreter",
-    "hand model lean/PdfVerif/Model/Ccitt.lean of BitParser/CCITTG4Parser/CCITTFaxDecoder/ccittfaxdecode "
-    "(differential correspondence on encoded, damaged and random streams)",
+    "tools/translate/gen_c19.py also regenerates Gen/CcittCode.lean (loop conditions, offsets, clamps, thresholds, "
+    "bit masks, defaults, _parse_mode dispatch: expressions translated generically inside pinned statement "
+    "skeletons) and Gen/CcittStream.lean (key / filter names and lookup orders of get_filters, _decode, "
+    "ccittfaxdecode); everything generated is used by the executable model and therefore tie-checked",
+    "hand model lean/PdfVerif/Model/Ccitt.lean (control structure of BitParser/CCITTG4Parser/CCITTFaxDecoder/"
+    "ccittfaxdecode) and Model/CcittStream.lean (get_any/get_filters/_decode CCITT branch, Python ==/truthiness of "
+    "parameter objects): differential correspondence on encoded, damaged, crafted and random streams and on "
+    "well- and ill-formed stream dictionaries",
 ]
 ASSUMPTIONS = [
     "K = -1 (Group 4), Columns >= 1 (or absent = 1728); the encoder does not use the optional uncompressed-mode "
@@ -59,6 +65,19 @@ STATEMENT_STATUS: Dict[str, str] = {
     "image_rt": "proved at full strength: all widths >= 1, heights >= 0, choices, EncodedByteAlign, EOFB, BlackIs1",
     "stream_rt": "proved: same through the parameter dictionary with ISO defaults for absent keys "
                  "(Columns 1728 after fix 8b16a54)",
+    "decodeChain_append": "proved: the filter loop of PDFStream._decode composes",
+    "ccittBranch_rt": "proved: round trip through the parameter dictionary as parsed objects; /Rows, /EndOfBlock, "
+                      "/EndOfLine, /DamagedRowsBeforeError and any other entry are never read",
+    "pdfstream_rt": "proved: PDFStream.get_data() for every spelling get_filters accepts (Filter/F, name or array, "
+                    "DecodeParms/DP/FDecodeParms, dictionary or array), CCITTFaxDecode last in a filter chain",
+    "getFilters_name_dict": "proved (pairing lemma)", "getFilters_arr_arr": "proved (pairing lemma)",
+    "getFilters_arr_dict": "proved (pairing lemma)",
+    "decode_total": "proved for EVERY byte string: result, InvalidData, or PDFValueError (K != -1); no internal "
+                    "branch reachable (feeds C13)",
+    "decode_output_bounded": "proved: at most 48 lines of output per input byte",
+    "ccittBranch_total": "proved: totality through the dictionary route",
+    "uncompressed_mode_cex": "proved counter-example: the uncompressed-mode extension (outside the property: not "
+                             "pass/vertical/horizontal) never completes a row after `width` pixels",
 }
 CLASSIFIERS: Dict[str, Any] = {}
 
@@ -228,32 +247,77 @@ def table_sanity() -> None:
 ROUTES = ("func", "stream", "stream-abbrev", "pdf", "stream-chain")
 
 
-def impl_decode(data: bytes, K: Any, cols: Any, align: Any, rev: Any, route: str = "func",
-                omit: Sequence[str] = ()) -> str:
-    """Run the real code. -> 'ok:<hex>' | 'EXC:<type>'"""
+def make_params(K: Any, cols: Any, align: Any, rev: Any, omit: Sequence[str] = ()) -> Dict[str, Any]:
     params: Dict[str, Any] = {"K": K, "Columns": cols, "EncodedByteAlign": align, "BlackIs1": rev}
     for k in omit:
         params.pop(k, None)
-    params = {k: v for k, v in params.items() if v is not None}
+    return {k: v for k, v in params.items() if v is not None}
+
+
+def stream_objects(route: str, params: Dict[str, Any], data: bytes, variant: int = 0):
+    """The stream dictionary (parsed objects) and raw data for a PDFStream route.  `variant` bits choose
+    among the spellings PDFStream.get_filters accepts and add entries the decoder must ignore."""
+    from pdfminer.psparser import LIT
+    v = variant
+    extra: Dict[str, Any] = {}
+    if v & 1:
+        extra["Rows"] = 1 + (v >> 10) % 5
+    if v & 2:
+        extra["EndOfBlock"] = bool(v & 64)
+    if v & 4:
+        extra["EndOfLine"] = False
+    if v & 8:
+        extra["DamagedRowsBeforeError"] = 0
+    p = {**extra, **params} if v & 16 else {**params, **extra}
+    abbrev = route == "stream-abbrev"
+    fname = "CCF" if abbrev ^ bool(v & 32) else "CCITTFaxDecode"
+    fkey = "F" if abbrev else "Filter"
+    pkey = "DP" if abbrev else ("FDecodeParms" if v & 128 else "DecodeParms")
+    if route == "stream-chain":
+        raw = data.hex().upper().encode() + b">"
+        filt: Any = [LIT("AHx" if v & 256 else "ASCIIHexDecode"), LIT(fname)]
+        parms: Any = [{} if v & 512 else None, p]
+    else:
+        raw = data
+        filt = [LIT(fname)] if v & 256 else LIT(fname)
+        parms = [p] if v & 512 else p
+    attrs = {fkey: filt, pkey: parms, "Length": len(raw)}
+    if v & 1024 and not abbrev:
+        attrs = {"Length": len(raw), "Type": LIT("XObject"), pkey: parms, fkey: filt}
+    return attrs, raw
+
+
+def obj_tokens(o: Any) -> str:
+    from pdfminer.psparser import PSLiteral
+    if o is None:
+        return "null"
+    if o is True:
+        return "true"
+    if o is False:
+        return "false"
+    if isinstance(o, int):
+        return "i:%d" % o
+    if isinstance(o, PSLiteral):
+        return "n:" + (o.name if isinstance(o.name, str) else o.name.decode("latin-1"))
+    if isinstance(o, list):
+        return " ".join(["["] + [obj_tokens(x) for x in o] + ["]"])
+    if isinstance(o, dict):
+        return " ".join(["<<"] + ["k:%s %s" % (k, obj_tokens(x)) for k, x in o.items()] + [">>"])
+    return "o"
+
+
+def impl_decode(data: bytes, K: Any, cols: Any, align: Any, rev: Any, route: str = "func",
+                omit: Sequence[str] = (), variant: int = 0) -> str:
+    """Run the real code. -> 'ok:<hex>' | 'EXC:<type>'"""
+    params = make_params(K, cols, align, rev, omit)
     try:
         if route == "func":
             from pdfminer.ccitt import ccittfaxdecode
             out = ccittfaxdecode(data, params)
-        elif route in ("stream", "stream-abbrev"):
+        elif route in ("stream", "stream-abbrev", "stream-chain"):
             from pdfminer.pdftypes import PDFStream
-            from pdfminer.psparser import LIT
-            if route == "stream":
-                attrs = {"Filter": LIT("CCITTFaxDecode"), "DecodeParms": params, "Length": len(data)}
-            else:
-                attrs = {"F": [LIT("CCF")], "DP": [params], "Length": len(data)}
-            out = PDFStream(attrs, data).get_data()
-        elif route == "stream-chain":
-            # CCITTFaxDecode as the second filter of a chain, parameters paired by position
-            from pdfminer.pdftypes import PDFStream
-            from pdfminer.psparser import LIT
-            hexed = data.hex().upper().encode() + b">"
-            attrs = {"Filter": [LIT("ASCIIHexDecode"), LIT("CCITTFaxDecode")], "DecodeParms": [None, params]}
-            out = PDFStream(attrs, hexed).get_data()
+            attrs, raw = stream_objects(route, params, data, variant)
+            out = PDFStream(attrs, raw).get_data()
         elif route == "pdf":
             from pdfminer.pdfdocument import PDFDocument
             from pdfminer.pdfparser import PDFParser
@@ -295,9 +359,10 @@ def rows_from_str(s: str):
 
 
 class Case:
-    __slots__ = ("w", "rows", "choices", "align", "rev", "eofb", "route", "tag", "omit")
+    __slots__ = ("w", "rows", "choices", "align", "rev", "eofb", "route", "tag", "omit", "variant")
 
-    def __init__(self, w, rows, choices, align, rev, eofb, route="func", tag="rand", omit=False):
+    def __init__(self, w, rows, choices, align, rev, eofb, route="func", tag="rand", omit=False, variant=0):
+        self.variant = int(variant)   # spelling of the stream dictionary (see stream_objects)
         self.w, self.rows, self.choices = w, rows, list(choices)
         self.align, self.rev, self.eofb, self.route, self.tag = bool(align), bool(rev), bool(eofb), route, tag
         # omit: leave out of the parameter dictionary every key whose value is the ISO 32000 default
@@ -312,18 +377,20 @@ class Case:
 
     def to_json(self) -> Dict[str, Any]:
         return {"w": self.w, "rows": rows_str(self.rows), "choices": ",".join(self.choices), "align": self.align,
-                "blackis1": self.rev, "eofb": self.eofb, "route": self.route, "omit_defaults": self.omit}
+                "blackis1": self.rev, "eofb": self.eofb, "route": self.route, "omit_defaults": self.omit,
+                "dict_variant": self.variant}
 
     @staticmethod
     def from_json(d) -> "Case":
         rows = rows_from_str(d["rows"])
         ch = d.get("choices", "")
         return Case(d["w"], rows, ch.split(",") if ch else [], d.get("align", False), d.get("blackis1", False),
-                    d.get("eofb", True), d.get("route", "func"), "replay", d.get("omit_defaults", False))
+                    d.get("eofb", True), d.get("route", "func"), "replay", d.get("omit_defaults", False),
+                    d.get("dict_variant", 0))
 
     def key(self):
         return (self.w, rows_str(self.rows), tuple(self.choices), self.align, self.rev, self.eofb, self.route,
-                self.omit)
+                self.omit, self.variant)
 
     def line(self) -> str:
         ch = ",".join(c if c else "-" for c in self.choices) if self.choices else "-"
@@ -335,7 +402,7 @@ def eval_case(c: Case) -> Tuple[bytes, str, bytes, str]:
     """-> (encoded, modes used, expected output, implementation result string)"""
     enc, used = encode_image(c.rows, c.w, c.choices, c.align, c.eofb)
     exp = pack(c.rows, c.w, c.rev)
-    got = impl_decode(enc, -1, c.w, c.align, c.rev, c.route, c.omitted())
+    got = impl_decode(enc, -1, c.w, c.align, c.rev, c.route, c.omitted(), c.variant)
     return enc, used, exp, got
 
 
@@ -364,7 +431,8 @@ def shrink(c: Case, max_tests: int = 300) -> Case:
         return Case(best.w if w is None else w, best.rows if rows is None else rows,
                     best.choices if choices is None else choices, best.align if align is None else align,
                     best.rev if rev is None else rev, best.eofb if eofb is None else eofb,
-                    best.route if route is None else route, best.tag, best.omit if omit is None else omit)
+                    best.route if route is None else route, best.tag, best.omit if omit is None else omit,
+                    best.variant if route is None else 0)
 
     if best.omit:
         attempt(mk(omit=False))
@@ -470,6 +538,12 @@ class Batch:
         # Lean: spec encoder, model decoder, spec packing in one line
         self.lines.append(c.line())
         self.expect.append(("rt", c.to_json(), "%s %s %s" % (C.hx(enc), got, C.hx(exp))))
+        if c.route in ("stream", "stream-abbrev", "stream-chain") and c.w < 2000:
+            # the dictionary hand-over: model of get_filters/_decode on the very objects given to PDFStream
+            attrs, raw = stream_objects(c.route, make_params(-1, c.w, c.align, c.rev, c.omitted()), enc, c.variant)
+            self.lines.append("sdec %s %s" % (C.hx(raw), obj_tokens(attrs)))
+            self.expect.append(("sdec", c.to_json(), got))
+            ctx.branch("dictvariant-bits:%d" % bin(c.variant & 0x7ff).count("1"))
         if len(self.lines) >= 20000:
             self.flush()
 
@@ -493,8 +567,8 @@ class Batch:
         if ctx.driver is not None and self.lines:
             outs = ctx.driver.ask(self.lines)
             for (op, inp, want), got in zip(self.expect, outs):
-                if op == "dec" and got == "unmodelled":
-                    ctx.branch("dec:unmodelled-skipped")
+                if op in ("dec", "sdec") and got == "unmodelled":
+                    ctx.branch(op + ":unmodelled-skipped")
                     continue
                 if op == "rt":
                     w_enc, w_dec, w_pack = want.split(" ")
@@ -582,7 +656,7 @@ def gen_case(rng, i: int, big_every: int = 20) -> Case:
     route = (ROUTES[(i // 3) % 3] if i % 41 else "pdf") if i % 17 else "stream-chain"
     return Case(w, rows, gen_choices(rng, rows, w), rng.random() < 0.5, rng.random() < 0.5, rng.random() < 0.7,
                 route, "rand-big" if w >= 2000 else ("rand-mid" if w >= 63 else "rand-small"),
-                omit=rng.random() < 0.3)
+                omit=rng.random() < 0.3, variant=rng.getrandbits(13) if rng.random() < 0.7 else 0)
 
 
 def run_tables(ctx: C.Ctx, b: Batch) -> None:
@@ -764,6 +838,63 @@ def run_damaged(ctx: C.Ctx, b: Batch) -> None:
     b.add_dec(b"", -1, 5, False, False, tag="empty")
 
 
+def run_stream_params(ctx: C.Ctx, b: Batch) -> None:
+    """Tie only: get_filters / _decode / parameter reading on dictionaries no conforming writer produces
+    (wrong types, missing or null entries, arrays of unequal length, unknown filters)."""
+    from pdfminer.pdftypes import PDFStream
+    from pdfminer.psparser import LIT
+    rng = ctx.rng
+    good = encode_image([[1, 0, 0, 1, 1], [1, 1, 0, 0, 1]], 5, [], False, True)[0]
+    ccf = lambda: LIT(rng.choice(["CCITTFaxDecode", "CCF"]))            # noqa: E731
+
+    def val(kind):
+        return rng.choice({"K": [-1, -1, -1, 0, 1, -2, None, True, LIT("x"), [], {}],
+                           "Columns": [5, 5, 5, 4, 8, 1728, 0, -3],
+                           "flag": [True, False, 0, 1, 2, None]}[kind])
+
+    for i in range(ctx.n(400, 6000)):
+        p: Dict[str, Any] = {}
+        for key, kind in (("K", "K"), ("Columns", "Columns"), ("EncodedByteAlign", "flag"), ("BlackIs1", "flag")):
+            if rng.random() < 0.85:
+                p[key] = val(kind)
+        if rng.random() < 0.3:
+            p[rng.choice(["Rows", "EndOfBlock", "EndOfLine", "DamagedRowsBeforeError"])] = rng.choice([0, 2, True, False])
+        if rng.random() < 0.05:
+            p["Predictor"] = 1
+        shape = rng.random()
+        attrs: Dict[str, Any] = {}
+        raw = good
+        fkey = rng.choice(["Filter", "F"])
+        pkey = rng.choice(["DecodeParms", "DP", "FDecodeParms"])
+        if shape < 0.35:
+            attrs[fkey] = ccf()
+            attrs[pkey] = p
+        elif shape < 0.55:
+            attrs[fkey] = [ccf()]
+            attrs[pkey] = rng.choice([[p], p, [None], [p, p], []])
+        elif shape < 0.7:
+            attrs[fkey] = [LIT("ASCIIHexDecode"), ccf()]
+            attrs[pkey] = rng.choice([[None, p], [{}, p], p, [p], [None, None]])
+            raw = good.hex().encode() + b">"
+        elif shape < 0.8:
+            attrs[fkey] = ccf()                               # no parameters at all
+        elif shape < 0.9:
+            attrs["Filter"] = ccf()
+            attrs["F"] = rng.choice([None, [], ccf()])       # both spellings present: F wins
+            attrs["DecodeParms"] = p
+            attrs["DP"] = rng.choice([p, None, {}])
+        else:
+            attrs[fkey] = rng.choice([None, [], 5, [5], [ccf(), 7]])
+            attrs[pkey] = p
+        try:
+            got = "ok:" + C.hx(bytes(PDFStream(dict(attrs), raw).get_data()))
+        except Exception as e:  # noqa: BLE001
+            got = "EXC:" + type(e).__name__
+        ctx.case(("sdec", obj_tokens(attrs)), True, branch="gen:stream-params")
+        ctx.branch("sdec:" + (got[:3] if got.startswith("ok") else got))
+        b.add_raw("sdec %s %s" % (C.hx(raw), obj_tokens(attrs)), {"attrs": obj_tokens(attrs), "raw": raw.hex()}, got)
+
+
 def run_corpus(ctx: C.Ctx, b: Batch) -> None:
     for path in sorted(glob.glob(os.path.join(C.VERIF, "corpus", "C19", "*.json"))):
         with open(path) as fp:
@@ -791,6 +922,8 @@ def replay(ctx: C.Ctx, doc) -> None:
 
 
 def run(ctx: C.Ctx) -> None:
+    import logging
+    logging.getLogger("pdfminer").setLevel(logging.ERROR)     # "Cannot decode stream" warnings of damaged cases
     table_sanity()
     b = Batch(ctx)
     run_corpus(ctx, b)
@@ -799,5 +932,6 @@ def run(ctx: C.Ctx) -> None:
     run_defaults(ctx, b)
     run_random(ctx, b)
     run_damaged(ctx, b)
+    run_stream_params(ctx, b)
     run_exhaustive(ctx, b)
     b.flush()
